@@ -10,7 +10,7 @@
     converging to the distance of the sets it was given. *)
 From Coq Require Import QArith Qreals Reals List.
 From D3 Require Import Base.Ops Base.Vec Base.RVec Spec.Convex Checker.Shapes Checker.Narrow Checker.NarrowB
-                       Model.Nesterov Proofs.Nesterov.
+                       Model.Nesterov Proofs.Nesterov Model.DistPrim Model.NesterovLoop Proofs.NesterovLoop.
 Import ListNotations.
 
 (** gjk_distance_original: the statement of C09 for one input, from an accepted certificate *)
@@ -66,6 +66,36 @@ Proof. exact sphere_coll_wf. Qed.
 Theorem C09_capsule_wf : forall T r h, (0 <= r)%R -> is_rotation (rot T) -> wf (capsule_coll T r h).
 Proof. exact capsule_coll_wf. Qed.
 
+(** ** the loop (model Model/NesterovLoop.v, tied to the code by trace replay, a full primitives model run and the
+    per-leaf unit correspondence on every run), over the reals, for an ARBITRARY set D = A (-) B given only through the
+    support pair of the pass *)
+(** the early exit [omega > upper_bound] returns a lower bound of the distance of D from the origin *)
+Theorem C09_nesterov_omega_exit_sound : forall (D : set3) normalize tol ub infl s s0 s1 om,
+  (0 < norm (next_dir normalize s))%R -> support_for D (next_dir normalize s) (vsub s0 s1) ->
+  pass normalize tol ub infl s s0 s1 = PDone (EOmega om) ->
+  (ub < om)%R /\ forall x, D x -> (om <= norm x)%R.
+Proof. exact pass_omega_exit_sound. Qed.
+
+(** PARTIAL: at the convergence exit the returned ray_len is within the relative tolerance of the distance of D,
+    GIVEN the loop invariants (the current ray is a point of D of norm ray_len; alpha is a lower bound); that the
+    simplex projections preserve them is not proved *)
+Theorem C09_nesterov_converged_exit_partial : forall (D : set3) normalize tol ub infl s s0 s1 rl,
+  (0 < norm (next_dir normalize s))%R -> support_for D (next_dir normalize s) (vsub s0 s1) ->
+  (exists x, D x /\ (norm x <= ray_len s)%R) ->
+  (forall x, D x -> (alpha s <= norm x)%R) ->
+  pass normalize tol ub infl s s0 s1 = PDone (EConverged rl) ->
+  rl = ray_len s /\
+  (exists x, D x /\ (norm x <= rl)%R) /\ (forall x, D x -> (rl - tol * rl <= norm x)%R).
+Proof. exact pass_converged_exit_partial. Qed.
+
+Example C09_loop_exit_nonvacuous :
+  (0 < norm (next_dir false ex_state))%R /\
+  support_for ex_D (next_dir false ex_state) (vsub (V 2 0 0) (V 0 0 0))%R /\
+  (exists x, ex_D x /\ (norm x <= ray_len ex_state)%R) /\
+  (forall x, ex_D x -> (alpha ex_state <= norm x)%R) /\
+  pass false (1 / 1000000)%R 1000000%R 0%R ex_state (V 2 0 0)%R (V 0 0 0)%R = PDone (EConverged 2%R).
+Proof. exact converged_exit_example. Qed.
+
 Theorem C09_dispatch_table :
   forallb (fun t0 => forallb (fun t1 =>
      match support_dispatch t0 t1 with
@@ -96,6 +126,9 @@ Print Assumptions C09_nesterov_inflation_consistent.
 Print Assumptions C09_nesterov_distance_exact_if_loop_exact.
 Print Assumptions C09_nesterov_inflation_old_refuted.
 Print Assumptions C09_dispatch_table.
+Print Assumptions C09_nesterov_omega_exit_sound.
+Print Assumptions C09_nesterov_converged_exit_partial.
+Print Assumptions C09_loop_exit_nonvacuous.
 Print Assumptions C09_sphere_wf.
 Print Assumptions C09_capsule_wf.
 Print Assumptions C09_nonvacuous.
